@@ -301,6 +301,106 @@ theorem project_add_reject_every_branch_float {a b : Geonum F} (ha : a.angle.Inv
           + (40 * ((a.angle.blade + (a.project b).angle.blade + 2 : ℕ) : ℝ) + 170) * (1 / 2 ^ 53))) + 1 / 10 ^ 28 + 2 * val (e10 : F) :=
   Geonum.sub_cartesian_every_branch_float ha hpinv hma hmp hcb
 
+/-- (B) **the projection as a Cartesian vector, in rounded arithmetic** (`|b| ≥ 1e-10` branch): it is `M·(cos T b, sin T b)` for a signed
+    length `M` within `|a|·(1e-10 + 1e-14) + 1e-30` of `|a|·cos(T b − T a)` — the vector `(a·b̂)b̂`, the sign carried by the half turn -/
+theorem project_cartesian_float {a b : Geonum F} (ha : a.angle.Inv) (hb : b.angle.Inv) (hm : Fin a.mag) (hm0 : 0 ≤ val a.mag)
+    (hbm : flt (fabs b.mag) e10 = false) :
+    ∃ M : ℝ, val (a.project b).mag * Real.cos (Angle.Tpi (a.project b).angle) = M * Real.cos (Angle.Tpi b.angle) ∧
+      val (a.project b).mag * Real.sin (Angle.Tpi (a.project b).angle) = M * Real.sin (Angle.Tpi b.angle) ∧
+      |M - val a.mag * Real.cos (Angle.Tpi b.angle - Angle.Tpi a.angle)| ≤ val a.mag * (val (e10 : F) + 1 / 10 ^ 14) + 1 / 10 ^ 30 ∧
+      Fin (a.project b).mag := by
+  have ps := project_structure a b hbm
+  simp only at ps
+  obtain ⟨hfp, hp1, hclose⟩ := Angle.project_float ha hb
+  obtain ⟨hfa, hva⟩ := fabs_spec hfp
+  have hc1 : |val (fabs (a.angle.project b.angle))| ≤ 1 := by rw [hva, abs_abs]; exact hp1
+  have hnum : (8:ℝ) / 10 ^ 15 + 1 / 2 ^ 53 ≤ 1 / 10 ^ 14 := by norm_num
+  have hbnd : val a.mag * (val (e10 : F) + 8 / 10 ^ 15 + 1 / 2 ^ 53) ≤ val a.mag * (val (e10 : F) + 1 / 10 ^ 14) :=
+    mul_le_mul_of_nonneg_left (by linarith) hm0
+  by_cases h : fge (a.angle.project b.angle) (zero : F) = true
+  · have hf0 : 0 ≤ val (a.angle.project b.angle) := by
+      have := (fle_spec (fin_zero (F := F)) hfp).mp h; rwa [val_zero] at this
+    have hcl : |val (fabs (a.angle.project b.angle)) - Real.cos (Angle.Tpi b.angle - Angle.Tpi a.angle)| ≤ val (e10 : F) + 8 / 10 ^ 15 := by
+      rw [hva, abs_of_nonneg hf0]; exact hclose
+    obtain ⟨hfm, hmm⟩ := mul_unit_float hm hm0 hfa hc1 hcl
+    refine ⟨val (a.project b).mag, by rw [ps.2.1 h], by rw [ps.2.1 h], ?_, by rw [ps.1]; exact hfm⟩
+    rw [ps.1]; linarith
+  · have h' : fge (a.angle.project b.angle) (zero : F) = false := by simpa using h
+    have hf0 : val (a.angle.project b.angle) < 0 := by
+      by_contra hc; push Not at hc
+      have := (fle_spec (fin_zero (F := F)) hfp).mpr (by rw [val_zero]; exact hc)
+      have h'' : fle (zero : F) (a.angle.project b.angle) = false := h'
+      rw [this] at h''; cases h''
+    have hcl : |val (fabs (a.angle.project b.angle)) - (-Real.cos (Angle.Tpi b.angle - Angle.Tpi a.angle))| ≤ val (e10 : F) + 8 / 10 ^ 15 := by
+      rw [hva, abs_of_neg hf0]
+      have e : -val (a.angle.project b.angle) - -Real.cos (Angle.Tpi b.angle - Angle.Tpi a.angle)
+          = -(val (a.angle.project b.angle) - Real.cos (Angle.Tpi b.angle - Angle.Tpi a.angle)) := by ring
+      rw [e, abs_neg]; exact hclose
+    obtain ⟨hfm, hmm⟩ := mul_unit_float hm hm0 hfa hc1 hcl
+    obtain ⟨hT, _⟩ := Geonum.Tpi_negate hb
+    have hang : Angle.Tpi (a.project b).angle = Angle.Tpi b.angle + Real.pi := by rw [ps.2.2.1 h']; exact hT
+    refine ⟨-val (a.project b).mag, by rw [hang, Real.cos_add_pi]; ring, by rw [hang, Real.sin_add_pi]; ring, ?_,
+      by rw [ps.1]; exact hfm⟩
+    rw [ps.1]
+    have e : -val (fmul a.mag (fabs (a.angle.project b.angle))) - val a.mag * Real.cos (Angle.Tpi b.angle - Angle.Tpi a.angle)
+        = -(val (fmul a.mag (fabs (a.angle.project b.angle))) - val a.mag * -Real.cos (Angle.Tpi b.angle - Angle.Tpi a.angle)) := by ring
+    rw [e, abs_neg]; linarith
+
+/-- (B) **the rejection is orthogonal to `b`, in rounded arithmetic**: the component of `r = a.reject b` along `b̂` — `r·b̂` in Cartesian
+    components — is at most twice the every-branch subtraction bound plus the projection's own accuracy; whatever branch `a − p` takes
+    (`a ∥ b` included) -/
+theorem reject_orthogonal_float {a b : Geonum F} (ha : a.angle.Inv) (hb : b.angle.Inv) (hma : a.MagDom)
+    (hbm : flt (fabs b.mag) e10 = false) (hcb : a.angle.blade + (a.project b).angle.blade + 2 ≤ 2 ^ 39) :
+    |val (a.reject b).mag * Real.cos (Angle.Tpi (a.reject b).angle) * Real.cos (Angle.Tpi b.angle)
+        + val (a.reject b).mag * Real.sin (Angle.Tpi (a.reject b).angle) * Real.sin (Angle.Tpi b.angle)|
+      ≤ 2 * ((val a.mag + val (a.project b).mag) * (2 / 10 ^ 7 + 11 / 10 * (val (e10 : F)
+          + (40 * ((a.angle.blade + (a.project b).angle.blade + 2 : ℕ) : ℝ) + 170) * (1 / 2 ^ 53))) + 1 / 10 ^ 28 + 2 * val (e10 : F))
+        + (val a.mag * (val (e10 : F) + 1 / 10 ^ 14) + 1 / 10 ^ 30) := by
+  obtain ⟨M, hX, hY, hM, hfp⟩ := project_cartesian_float ha hb hma.1 hma.2.1 hbm
+  obtain ⟨hpinv, _, _⟩ := project_angle (a := a) hbm hb
+  have hg := gradeAngle_fin (geometricSub_inv hb ha)
+  obtain ⟨hp0, hp1⟩ := project_mag_bounds hma.1 hma.2.1 hbm hg
+  have hmp : (a.project b).MagDom := ⟨hfp, hp0, le_trans hp1 hma.2.2⟩
+  obtain ⟨s1, s2⟩ := project_add_reject_every_branch_float (b := b) ha hpinv hma hmp hcb
+  set B := (val a.mag + val (a.project b).mag) * (2 / 10 ^ 7 + 11 / 10 * (val (e10 : F)
+          + (40 * ((a.angle.blade + (a.project b).angle.blade + 2 : ℕ) : ℝ) + 170) * (1 / 2 ^ 53))) + 1 / 10 ^ 28 + 2 * val (e10 : F) with hB
+  rw [hX] at s1; rw [hY] at s2
+  set c := Real.cos (Angle.Tpi b.angle) with hc
+  set s := Real.sin (Angle.Tpi b.angle) with hs
+  set Xr := val (a.reject b).mag * Real.cos (Angle.Tpi (a.reject b).angle) with hXr
+  set Yr := val (a.reject b).mag * Real.sin (Angle.Tpi (a.reject b).angle) with hYr
+  have hcs : c * c + s * s = 1 := by rw [hc, hs]; have := Real.cos_sq_add_sin_sq (Angle.Tpi b.angle); nlinarith
+  have hc1 : |c| ≤ 1 := Real.abs_cos_le_one _
+  have hs1 : |s| ≤ 1 := Real.abs_sin_le_one _
+  have hdot : val a.mag * Real.cos (Angle.Tpi a.angle) * c + val a.mag * Real.sin (Angle.Tpi a.angle) * s
+      = val a.mag * Real.cos (Angle.Tpi b.angle - Angle.Tpi a.angle) := by
+    rw [Real.cos_sub, hc, hs]; ring
+  -- Xr c + Yr s = (e1 c + e2 s) + (|a| cos Δ − M)
+  have e : Xr * c + Yr * s = (Xr + M * c - val a.mag * Real.cos (Angle.Tpi a.angle)) * c
+      + (Yr + M * s - val a.mag * Real.sin (Angle.Tpi a.angle)) * s
+      + (val a.mag * Real.cos (Angle.Tpi b.angle - Angle.Tpi a.angle) - M) := by
+    rw [← hdot]
+    have : M * c * c + M * s * s = M := by
+      have : M * c * c + M * s * s = M * (c * c + s * s) := by ring
+      rw [this, hcs, mul_one]
+    linarith
+  rw [e]
+  have t1 : |(Xr + M * c - val a.mag * Real.cos (Angle.Tpi a.angle)) * c| ≤ B := by
+    rw [abs_mul]
+    calc _ ≤ |Xr + M * c - val a.mag * Real.cos (Angle.Tpi a.angle)| * 1 := mul_le_mul_of_nonneg_left hc1 (abs_nonneg _)
+      _ = _ := mul_one _
+      _ ≤ B := s1
+  have t2 : |(Yr + M * s - val a.mag * Real.sin (Angle.Tpi a.angle)) * s| ≤ B := by
+    rw [abs_mul]
+    calc _ ≤ |Yr + M * s - val a.mag * Real.sin (Angle.Tpi a.angle)| * 1 := mul_le_mul_of_nonneg_left hs1 (abs_nonneg _)
+      _ = _ := mul_one _
+      _ ≤ B := s2
+  have t3 : |val a.mag * Real.cos (Angle.Tpi b.angle - Angle.Tpi a.angle) - M| ≤ val a.mag * (val (e10 : F) + 1 / 10 ^ 14) + 1 / 10 ^ 30 := by
+    rw [abs_sub_comm]; exact hM
+  have := abs_add_three ((Xr + M * c - val a.mag * Real.cos (Angle.Tpi a.angle)) * c)
+    ((Yr + M * s - val a.mag * Real.sin (Angle.Tpi a.angle)) * s) (val a.mag * Real.cos (Angle.Tpi b.angle - Angle.Tpi a.angle) - M)
+  linarith
+
 end B
 
 example {F : Type} [FloatSpec F] : (⟨zero, 1⟩ : Angle F).Inv := inv_zero 1
